@@ -64,8 +64,9 @@ func dBasic(monoidInt bool) []dty {
 		{expr: "uint8", kind: "uint8", caps: caps{true, true, true, false, true, true}, lit: func(t *rapid.T) string {
 			return strconv.Itoa(rapid.SampledFrom([]int{0, 1, 255}).Draw(t, "u8"))
 		}},
-		{expr: "float64", kind: "float64", caps: caps{true, true, false, false, true, true}, lit: func(t *rapid.T) string {
-			return rapid.SampledFrom([]string{"0", "1.5", "-2.25", "3"}).Draw(t, "f64")
+		{expr: "float64", kind: "float64", caps: caps{true, true, true, false, true, true}, lit: func(t *rapid.T) string {
+			// negZero (declared in the emitted test file) is -0.0: equal to 0 under ==, a different bit pattern
+			return rapid.SampledFrom([]string{"0", "negZero", "1.5", "-2.25", "3", "0.25", "0.75"}).Draw(t, "f64")
 		}},
 		{expr: "string", kind: "string", caps: all, lit: func(t *rapid.T) string {
 			return strconv.Quote(rapid.SampledFrom([]string{"", "mka", "mkb", "mkab", "mkz"}).Draw(t, "str"))
@@ -612,6 +613,7 @@ func (p dpkg) cases() string {
 	sb.WriteString(`package pa
 
 import (
+	"math"
 	"reflect"
 	"time"
 
@@ -628,6 +630,8 @@ import (
 var _ = time.Second
 var _ fp.Unit
 var _ = option.None[int]
+
+var negZero = math.Copysign(0, -1)
 
 func typeOf[T any]() reflect.Type { return reflect.TypeOf((*T)(nil)).Elem() }
 
